@@ -19,7 +19,7 @@ RULE = ('Hypothesis RuleBasedStateMachine over an agent process that links /repo
         '64-bit offsets stored in guest memory, bytes read, untouched canaries around every result, file position, file sizes; '
         'at the end the two trees and the extents of sparse files. Non-trivial = history with a positional op followed by a '
         'sequential op on the same fd, an iovec list with >= 2 segments one of them empty, an offset >= 2^32, append mode, or an '
-        'unstable-ABI seek; distinct by history.')
+        'unstable-ABI seek; distinct by history. Descriptors 0-2 are files here (0 read-only, 1 and 2 write-only): writes to 0 and reads from 1 or 2 are BADF as writev / readv say.')
 ASSUME = ['Linux tmpfs semantics of the POSIX mirror calls are the reference ("the corresponding POSIX operations")',
           'rights are mapped to open(2) access modes as wasi.c documents (read|write -> O_RDWR, write -> O_WRONLY, else O_RDONLY)']
 
